@@ -246,6 +246,11 @@ def make_hostile(kind, r, my_id, net, real_addrs, key_hint):
                        bytes([45, 45, 7, 1]) + (4444).to_bytes(2, 'big') + my_id + b'\x00',                # a public one with one byte too many
                        bytes([45, 45, 7, 2]) + (4444).to_bytes(2, 'big') + my_id + my_id[:6],
                        bytes([45, 45, 7, 3]) + (4444).to_bytes(2, 'big') + my_id[:-1]]                      # and one byte short
+            asked['bad_compact'] += 1
+            if asked['bad_compact'] % 2 == 0:
+                # every second page holds nothing but public addresses of the wrong length: the finder drops a whole page on the first
+                # entry it refuses, so in the mixed page above `short` hides what would become of the longer ones
+                entries = [e for e in entries if len(e) > 54]
             for e in entries:
                 if len(e) != 54 and len(e) >= 6:          # what a decoder that ignores the length would make of it (seeded break C17-K)
                     net.illformed.add((socket.inet_ntoa(e[:4]), int.from_bytes(e[4:6], 'big')))
